@@ -142,6 +142,8 @@ def gen_case(rng, tier):
     for _ in range(nsel):
         e, v = gen_expr(rng)
         selectors.append({'expr': e, 'v': v})
+        if rng.random() < 0.15:
+            selectors[-1]['cvars'] = rng.randrange(nvs)
     if rng.random() < 0.2:
         # memo-focused history: few call sites whose arguments come from variables, evaluated again and again
         # through the same Selector / token under bindings that differ in one or two variables
@@ -183,6 +185,8 @@ def gen_case(rng, tier):
               'vars': rng.randrange(nvs), 'tz': rng.choice(TZS), 'frag': rng.choice([None, None, None, True, False]),
               'via': rng.choice(['selector', 'selector', 'token', 'select']), 'both': rng.random() < 0.3,
               'item': rng.choice([None, None, None, 0, 1, 2])}
+        if selectors[op['sel']].get('cvars') is not None and rng.random() < 0.5:
+            op['novars'] = True
         if rng.random() < gen_rate + 0.1 * (gen_rate > 0):
             op['op'] = 'open'
             op['task'] = ntasks
@@ -370,8 +374,11 @@ def clean_room(case, op, now):
     global NSMAP_LIVE
     NSMAP_LIVE = dict(NSMAP)
     docs = [build_doc(d) for d in case['docs']]
-    variables = build_vars(case['varsets'][op['vars'] % len(case['varsets'])], docs)
     sel = case['selectors'][op['sel'] % len(case['selectors'])]
+    vi = op['vars']
+    if op.get('novars') and op.get('via', 'selector') == 'selector' and sel.get('cvars') is not None:
+        vi = sel['cvars']       # no variables in the call: the ones given to the Selector constructor apply
+    variables = build_vars(case['varsets'][vi % len(case['varsets'])], docs)
     root, kw = eval_kwargs(op, docs, variables, now)
     maps = index_maps(docs)
     try:
@@ -404,7 +411,7 @@ def run_case(case, world):
 
     def ref_for(op):
         key = (op['sel'] % len(case['selectors']), op['doc'] % len(docs), op['vars'] % len(varsets), op.get('tz'),
-               op.get('frag'), op.get('item'), now[0])
+               op.get('frag'), op.get('item'), now[0], bool(op.get('novars')) and op.get('via', 'selector') == 'selector')
         if key not in refs:
             n = now[0]
             st, val = runner.fork_call(lambda: clean_room(case, op, n), timeout=30)
@@ -434,7 +441,15 @@ def run_case(case, world):
         k = k % len(case['selectors'])
         if k not in selectors:
             s = case['selectors'][k]
-            selectors[k] = elementpath.Selector(s['expr'], namespaces=NSMAP_LIVE, parser=parser_class(s['v']))
+            if s.get('cvars') is not None:
+                # the deprecated form: variables given to the constructor (the caller's own dictionary)
+                import warnings
+                with warnings.catch_warnings():
+                    warnings.simplefilter('ignore')
+                    selectors[k] = elementpath.Selector(s['expr'], namespaces=NSMAP_LIVE, parser=parser_class(s['v']),
+                                                        variables=varsets[s['cvars'] % len(varsets)])
+            else:
+                selectors[k] = elementpath.Selector(s['expr'], namespaces=NSMAP_LIVE, parser=parser_class(s['v']))
         return selectors[k]
 
     def get_token(k):
@@ -456,6 +471,8 @@ def run_case(case, world):
             s = get_selector(op['sel'])
             kw2 = dict(kw)
             kw2['namespaces'] = NSMAP_LIVE
+            if op.get('novars') and sel.get('cvars') is not None:
+                del kw2['variables']
             return s.iter_select(root, **kw2) if lazy else s.select(root, **kw2)
         if via == 'token':
             tk = get_token(op['sel'])
